@@ -5,7 +5,7 @@
    implementation output carries the bytes the REAL writer produced, so the models below run on the
    real artefacts. *)
 From Coq Require Import List ZArith NArith String Bool Arith.
-From AV Require Import Base.Codec Model.C18_Fault Model.C18_Frame.
+From AV Require Import Base.Codec Model.C18_Fault Model.C18_Frame Model.C18_Avro.
 Import ListNotations.
 Local Open Scope string_scope.
 
@@ -14,7 +14,9 @@ Definition no (code : list Z) : list (list Z) := [0%Z :: code].
 
 (* ------------------------------------------------------------------ writer faults
    args : [fmt; deterministic?] [opts] [seed; schema; batches] [kind] [k]
-   out  : [outcome 0=every API call Ok / 1=some API call returned Err]
+   out  : [outcome 0=every API call Ok / 1=some API call returned Err;
+           n_api = number of sink calls of the fault-free run made before the last API call returned
+           (later calls are made by Drop, where no error can be reported)]
           [fault-free call trace: bytes per write call, -1 = flush]
           [fault-free bytes] [bytes accepted before call k] [bytes accepted at/after call k]
    predicate: the observed (outcome, bytes) are those of the sink model [run] on the fault-free
@@ -23,8 +25,11 @@ Definition no (code : list Z) : list (list Z) := [0%Z :: code].
        the bytes of the first k calls;
      - short write / Interrupted on a write call: outcome Ok and the complete fault-free bytes;
      - Interrupted on a flush call (std does not retry flush): Err, or Ok with the complete bytes;
-     - always: Ok only with the complete bytes; accepted-before-fault is a prefix of fault-free. *)
-Definition wfault_check (det : bool) (kind k : nat) (outcome : Z) (trace ff before extra : list Z) : list (list Z) :=
+     - always: Ok only with the complete bytes; accepted-before-fault is a prefix of fault-free;
+       in the fault-free run no byte is written after the last API call returned (a writer that
+       reports success and leaves bytes to Drop has not had them accepted);
+     - a fault at a Drop-time call (k >= n_api, flush only) cannot be reported: Ok with all bytes. *)
+Definition wfault_check (det : bool) (kind k n_api : nat) (outcome : Z) (trace ff before extra : list Z) : list (list Z) :=
   let calls := calls_of trace ff in
   let total := (before ++ extra)%list in
   if negb (list_eqb (bytes_of_calls calls) ff) then no [1%Z]       (* trace inconsistent: harness bug *)
@@ -33,6 +38,8 @@ Definition wfault_check (det : bool) (kind k : nat) (outcome : Z) (trace ff befo
     let soft_flush := Nat.eqb kind 3 && (nth k trace 0 <? 0)%Z in
     let okb := if det then list_eqb total ff else Nat.eqb (List.length total) (List.length ff) in
     if negb ((outcome =? 0)%Z || (outcome =? 1)%Z) then no [2%Z]
+    else if existsb (fun t => (0 <=? t)%Z) (skipn n_api trace) then no [8%Z]   (* bytes written after success was reported *)
+    else if (n_api <=? k)%nat then (if (outcome =? 0)%Z && okb then ok1 else no [9%Z])
     else if (outcome =? 0)%Z && negb okb then no [3%Z]              (* Ok but not every byte accepted *)
     else if det && negb (prefixb before ff) then no [4%Z]           (* emitted before the fault is not a prefix *)
     else match o with
@@ -45,19 +52,20 @@ Definition wfault_check (det : bool) (kind k : nat) (outcome : Z) (trace ff befo
 
 Definition p_wfault (a : args) : list (list Z) :=
   if negb (Nat.eqb (List.length a) 11) then no [0%Z]
-  else wfault_check (negb (Z.eqb (nth 1 (arg 0 a) 0%Z) 0)) (argn 3 a) (argn 4 a) (argz 6 a)
+  else wfault_check (negb (Z.eqb (nth 1 (arg 0 a) 0%Z) 0)) (argn 3 a) (argn 4 a) (Z.to_nat (nth 1 (arg 6 a) 0%Z)) (argz 6 a)
                     (arg 7 a) (arg 8 a) (arg 9 a) (arg 10 a).
 
 (* ------------------------------------------------------------------ truncation
    args : [fmt; class] [opts] [seed; schema; batches] [ks: truncation lengths]
    out  : [file] [H: H_i = hash of the first i written rows, i = 0..N] [cumulative rows per batch, from 0]
+          [aux: Avro OCF header length]
           then one entry per k: [outcome 0 = clean end / 1 = Err] [batches decoded] [rows decoded]
           [hash of the rows decoded]
-   class: 0 parquet (footer), 1 IPC file (footer), 2 IPC stream (StreamReader), 3 Avro OCF (block prefix),
+   class: 0 parquet (footer), 1 IPC file (footer), 2 IPC stream (StreamReader), 3 Avro OCF (block framing model),
           4 JSON lines (row prefix), 6 IPC stream through the push-based StreamDecoder *)
 Definition tail_code (t : tail) : Z := match t with End => 0%Z | Err => 1%Z end.
 
-Definition trunc_one (cls : nat) (file H cum : list Z) (k : nat) (outcome nb nr h : Z) : bool :=
+Definition trunc_one (cls : nat) (file H cum aux : list Z) (k : nat) (outcome nb nr h : Z) : bool :=
   let N := Z.of_nat (List.length H - 1) in
   let len := List.length file in
   if negb ((0 <=? nr)%Z && (nr <=? N)%Z && ((outcome =? 0)%Z || (outcome =? 1)%Z)) then false
@@ -74,25 +82,29 @@ Definition trunc_one (cls : nat) (file H cum : list Z) (k : nat) (outcome nb nr 
                | None => (outcome =? 1)%Z && (nb =? 0)%Z && (nr =? 0)%Z
                | Some (n, t) => (nb =? Z.of_nat n)%Z && (outcome =? tail_code t)%Z && (nr =? nth n cum (-1)%Z)%Z
                end
-    | 3%nat => existsb (Z.eqb nr) cum
+    | 3%nat => existsb (Z.eqb nr) cum &&
+               match avro_read (Z.to_nat (hd 0%Z aux)) pre with
+               | None => (outcome =? 1)%Z && (nr =? 0)%Z
+               | Some (rows, t) => (nr =? rows)%Z && (outcome =? tail_code t)%Z
+               end
     | 6%nat => let '(n, t) := push_read pre in
                (nb =? Z.of_nat n)%Z && (outcome =? tail_code t)%Z && (nr =? nth n cum (-1)%Z)%Z
     | _ => true
     end.
 
-Fixpoint trunc_all (cls : nat) (file H cum ks os nbs nrs hs : list Z) : list (list Z) :=
+Fixpoint trunc_all (cls : nat) (file H cum aux ks os nbs nrs hs : list Z) : list (list Z) :=
   match ks, os, nbs, nrs, hs with
   | [], [], [], [], [] => ok1
   | k :: ks', o :: os', nb :: nbs', nr :: nrs', h :: hs' =>
-      if trunc_one cls file H cum (Z.to_nat k) o nb nr h then trunc_all cls file H cum ks' os' nbs' nrs' hs'
+      if trunc_one cls file H cum aux (Z.to_nat k) o nb nr h then trunc_all cls file H cum aux ks' os' nbs' nrs' hs'
       else no [k; o; nb; nr]
   | _, _, _, _, _ => no [(-1)%Z]
   end.
 
 Definition p_trunc (a : args) : list (list Z) :=
-  if negb (Nat.eqb (List.length a) 12) then no [(-2)%Z]
-  else trunc_all (Z.to_nat (nth 1 (arg 0 a) 0%Z)) (arg 5 a) (arg 6 a) (arg 7 a)
-                 (arg 3 a) (arg 8 a) (arg 9 a) (arg 10 a) (arg 11 a).
+  if negb (Nat.eqb (List.length a) 13) then no [(-2)%Z]
+  else trunc_all (Z.to_nat (nth 1 (arg 0 a) 0%Z)) (arg 5 a) (arg 6 a) (arg 7 a) (arg 8 a)
+                 (arg 3 a) (arg 9 a) (arg 10 a) (arg 11 a) (arg 12 a).
 
 (* ------------------------------------------------------------------ reader faults
    args : [fmt; class] [opts] [seed; schema; batches] [kind] [k]
